@@ -106,6 +106,26 @@ _MORE = {
     "C19": " Also: aliases of constructor parameters (F2), BackendEngine.evaluate of both engines (one forward pass in evaluation mode).",
     "C20": " Also: bootstrap arguments of MetricFrame; a cast of the labels is not the identity.",
 }
+_MORE2 = {
+    "C01": " _get_annotated_metric_functions (own sample_params entry per metric, caller's mapping untouched), _process_features for dicts (caller's order).",
+    "C03": " MetricFrame weight plumbing and provenance of the MetricFrame entry points.",
+    "C04": " Frame conditions F1/F3-F6 of ThresholdOptimizer; stand-in: narrow / unsigned score dtypes.",
+    "C05": " Stand-in: narrow / unsigned score dtypes.",
+    "C06": " Purity (F5) of the moments' query methods; stand-in: label dtypes.",
+    "C07": " project_lambda with labels vs positions; purity (F5) of the moments' query methods.",
+    "C09": " Frame conditions F4-F6 of GridSearch; the single-value shortcut inspects the trained labels.",
+    "C10": " InterpolatedThresholder.predict (seed 0 is a seed); purity of the stored predictor callable; F5/F6 of the predictors.",
+    "C12": " _process_features for dicts (caller's order); provenance of .index / getattr(x,'index') / raw_feature_.",
+    "C13": " The caller's container type is symbolic in the validator contract; stand-in: white-space tuples and constraint values per tuple-equality group.",
+    "C14": " Stand-in: input dtypes (bool, int8, uint8, float32).",
+    "C16": " shuffle of the engines; an alpha cached on the engine is not the estimator's parameter.",
+    "C17": " Stand-in: refit histories (warm_start on/off), classes= at every partial_fit call.",
+    "C18": " Stand-in: direct single-resample contract (n rows, every row drawn, NaN cells).",
+    "C19": " F6: prediction reads only parameters and state that fit defines; seeded draws of predict.",
+    "C20": " Stand-in: control features rejected also with prefit=True.",
+}
+for _k, _v in _MORE2.items():
+    _MORE[_k] = _MORE.get(_k, "") + _v
 for _k, _v in _MORE.items():
     CHECKS[_k]["text"] = CHECKS[_k]["text"] + _v
 NOT_APPLICABLE = {}
